@@ -263,6 +263,23 @@ def generate(root):
 
     EXTRA(emit, text_const, str_value, str_list, literal, failures, locals())
 
+    # plug-ins: tools/extractors/<topic>.py with `def extract(api)`; each emits its own constants
+    import importlib.util
+    exdir = os.path.join(os.path.dirname(os.path.abspath(__file__)), 'extractors')
+    api = {'emit': emit, 'text_const': text_const, 'str_value': str_value, 'str_list': str_list,
+           'literal': literal, 'failures': failures, 'Source': Source, 'root': root, 'S': S,
+           'lean_str': lean_str, 'src_of': src_of}
+    for fn in sorted(os.listdir(exdir)) if os.path.isdir(exdir) else []:
+        if fn.endswith('.py') and not fn.startswith('_'):
+            spec = importlib.util.spec_from_file_location('xdoc_extractor_' + fn[:-3], os.path.join(exdir, fn))
+            m = importlib.util.module_from_spec(spec)
+            spec.loader.exec_module(m)
+            emit('/-! ---- from tools/extractors/%s -/' % fn)
+            try:
+                m.extract(api)
+            except Exception as ex:
+                failures.append('extractor %s raised %r' % (fn, ex))
+
     emit('/-- constants the translator could not find in the expected syntactic place -/')
     emit('def extractionFailures : List String := [%s]' % ', '.join(lean_str(f) for f in failures))
     emit('')
